@@ -741,6 +741,7 @@ func (b *BaseStore) LoadFromSnapshot(ctx context.Context) error {
 		// the saved queue only records hashes, which Sync cannot verify as
 		// heads: hand them to the replicator, which fetches entries by hash
 		if len(entries) > 0 {
+			verifhook.Point("store.sync.spawn", b.replicator, entries)
 			go b.Replicator().Load(ctx, entries)
 		}
 	}
